@@ -597,6 +597,44 @@ pub mod storage {
         kani::cover!(true, "end");
     }
 
+    /// `Extend` is exactly repeated `push` for both buffers, for fewer and for more items than fit
+    #[kani::proof]
+    #[kani::unwind(8)]
+    pub fn extend_is_repeated_push() {
+        let start: usize = kani::any();
+        let len: usize = kani::any();
+        let data: [u8; N] = kani::any();
+        kani::assume(start < N && len <= N);
+        let items: [u8; 5] = kani::any();
+        let k: usize = kani::any();
+        kani::assume(k <= 5);
+        let mut a = Bounded::from_raw_parts(start, len, data);
+        let mut b = Bounded::from_raw_parts(start, len, data);
+        a.extend(items[..k].iter().cloned());
+        for i in 0..k {
+            b.push(items[i]);
+        }
+        assert!(a.len() == b.len());
+        let i: usize = kani::any();
+        assert!(a.get(i) == b.get(i), "Bounded::extend == repeated push");
+        let first: usize = kani::any();
+        kani::assume(first < N);
+        let mut fa = Fixed::from_raw_parts(first, data);
+        let mut fb = Fixed::from_raw_parts(first, data);
+        fa.extend(items[..k].iter().cloned());
+        for i in 0..k {
+            fb.push(items[i]);
+        }
+        let j: usize = kani::any();
+        kani::assume(j < N);
+        assert!(fa[j] == fb[j], "Fixed::extend == repeated push");
+        let (f1, _) = fa.into_raw_parts();
+        let (f2, _) = fb.into_raw_parts();
+        assert!(f1 == f2);
+        kani::cover!(k == 5, "more items than the buffer holds");
+        kani::cover!(true, "end");
+    }
+
     #[kani::proof]
     #[kani::unwind(8)]
     pub fn fixed_shared_slice() {
